@@ -233,6 +233,7 @@ class Ctx:
         self.expect_default = {}    # column name -> True: created without explicit unit, check at next success
         self.assigned = {}          # column name -> the unit explicitly given for that column (its "own unit")
         self.failed = False
+        self.snap = None            # plain DataFrame copy of the frame at the last successful consultation
 
     @property
     def info(self):
@@ -675,6 +676,23 @@ def op_df_fillna_inplace(ctx):
     return inplace(ctx, lambda df: df.fillna(val, inplace=True), f"df.fillna({val!r},inplace)")
 
 
+def op_df_restore(ctx):
+    """put the frame back, in place, to exactly what it was at the last successful consultation
+    (same labels, same dtypes, same number of rows): the remembered-state short cut may fire"""
+    snap = ctx.snap
+    if snap is None:
+        return "restore(nothing)"
+    ctx.assigned = {}
+
+    def f(df):
+        for c in list(dict.fromkeys(df.columns)):
+            del df[c]
+        df.drop(index=df.index, inplace=True)
+        for c in snap.columns:
+            df[c] = snap[c].array.copy()
+    return inplace(ctx, f, f"restore frame to last consulted state {list(snap.columns)}x{len(snap)}")
+
+
 # pandas operations returning a new frame
 
 def other_table(ctx, share=True):
@@ -908,7 +926,7 @@ OPS = {
     "df_setcols": (op_df_setcols, 3), "df_move": (op_df_move, 5), "df_sortcols": (op_df_sortcols_inplace, 2),
     "df_assign": (op_df_assign, 6), "df_astype": (op_df_astype, 4), "df_loc_append": (op_df_loc_append, 4),
     "df_drop_rows": (op_df_drop_rows, 2), "df_dropcols": (op_df_drop_cols_inplace, 2), "df_setcell": (op_df_setcell, 2),
-    "df_fillna_inplace": (op_df_fillna_inplace, 1),
+    "df_fillna_inplace": (op_df_fillna_inplace, 1), "df_restore": (op_df_restore, 5),
     "select": (op_select, 6), "copy": (op_copy, 3), "sort_index": (op_sort_index, 3), "reindex": (op_reindex, 4),
     "concat": (op_concat, 6), "merge": (op_merge, 5), "assign": (op_assign, 4), "drop": (op_drop, 3),
     "astype": (op_astype, 4), "fillna": (op_fillna, 2), "replace": (op_replace, 2), "rename": (op_rename, 3),
@@ -918,7 +936,7 @@ OPS = {
 C15_WEIGHTS = {
     "add_column": 8, "setitem": 8, "set_units": 5, "set_col_unit": 5, "set_all_units": 1, "rewrap": 6,
     "df_assign": 10, "df_astype": 10, "df_loc_append": 10, "df_drop_rows": 5, "df_setcell": 6, "df_fillna_inplace": 3,
-    "df_insert": 3, "df_del": 2, "df_rename": 1, "df_move": 1, "copy": 5, "astype": 8, "fillna": 6, "replace": 5,
+    "df_insert": 3, "df_del": 2, "df_rename": 1, "df_move": 1, "df_restore": 6, "df_setcols": 2, "copy": 5, "astype": 8, "fillna": 6, "replace": 5,
     "rows": 6, "concat": 4, "merge": 2, "assign": 3, "select": 2, "reindex": 2,
 }
 
@@ -942,6 +960,9 @@ def probe(ctx, writers):
     except Exception as e:
         units, ures = None, exc_name(e)
     ctx.send("units", ures)
+    if units is not None:
+        import pandas as pd
+        ctx.snap = pd.DataFrame(df).copy()       # plain copy of the frame as last consulted successfully
     if units is not None and info._last_dataframe_state is not state_before:
         ctx.tainted = False                      # a full validation just succeeded
     names = list(df.columns)
@@ -1141,10 +1162,20 @@ def run_history(out, prop, seed, stream, index, depth, weights=None, plan=None, 
         steps = script if script is not None else [None] * depth
         for s in steps:
             k = s if s is not None else rng.choices(names, wts)[0]
+            skip = k.endswith("!") or (s is None and rng.random() < 0.25)
+            k = k.rstrip("!")
             d = OPS[k][0](ctx)
-            case["ops"].append(d)
             out.count("op:" + k)
-            probe(ctx, writers=(rng.random() < 0.5))
+            cur_names = set(ctx.df.columns)
+            ctx.assigned = {n: u for n, u in ctx.assigned.items() if n in cur_names}   # units of columns that left are forgotten
+            if skip:
+                # no consultation between this operation and the next one
+                case["ops"].append(d + "  [not consulted]")
+                ctx.expect_default = {}
+                out.count("probe_skipped")
+            else:
+                case["ops"].append(d)
+                probe(ctx, writers=(rng.random() < 0.4))
     except Abort as a:
         out.count("cut:" + str(a))
         case["ops"].append("CUT: " + str(a))
@@ -1210,7 +1241,8 @@ SCRIPT_ALPHABET = ["add_column", "setitem", "set_col_unit", "df_insert", "df_del
                    "reindex", "concat", "merge", "assign", "drop", "astype", "rows", "rewrap"]
 EX_PLAN = (["a", "b", "c"], ["f", "s", "b"], 2, "good", True)
 # second enumeration, aimed at the remembered-state short cut: emptiness transitions around type-changing edits
-E_ALPHABET = ["df_drop_rows", "df_loc_append", "df_insert", "df_assign", "setitem", "add_column", "df_astype", "copy"]
+E_ALPHABET = ["df_drop_rows", "df_loc_append", "df_insert!", "df_assign!", "setitem!", "add_column!", "df_astype",
+              "df_restore", "df_setcols!"]
 E_PLANS = [(["a", "b"], ["f", "s"], 1, "good", True), (["a", "b"], ["f", "s"], 0, "wrong", True)]
 
 
